@@ -85,7 +85,9 @@ CLAIMED.update({
               "Deepening: the ILP constraint builders are mirrored and proved sound and complete (ILP optimum = reference optimum, decoding of axis "
               "and deletion set); the constraint multiset python-mip receives is compared with the mirror. the dynamic programme of k_alternative_deletion is mirrored and proved sound "
               "(elp_sound: valid certificate, upper bound) AND optimal for every size (place_complete, elp_optimal: the mirror returns exactly min_alt_del); the code is "
-              "compared with the mirror at every size and with a fast verified reference (fast_min_alt = min_alt_del, proved) up to m = 15; CBC (max_gap 0.05) is trusted; fewer than 20 alternatives as the property requires.", "C12"),
+              "compared with the mirror at every size and with a fast verified reference (fast_min_alt = min_alt_del, proved) up to m = 15; CBC (max_gap 0.05) is trusted; fewer than 20 alternatives as the property requires. "
+              "One open known finding (KF-C12-cbc-nondeterminism): multi-threaded CBC intermittently returns a non-minimum with status OPTIMAL; a failure that is not reproduced "
+              "when the case is re-run alone is matched by that entry, a reproducible one is a violation.", "C12"),
     "C13": _r("Coq theorems: single-peaked-on-a-tree specification, connectivity test, tree and witness checkers proved equivalent to the "
               "spec (orientation/order of edges irrelevant), candidate-tree enumeration proved complete, decider correct for every size, "
               "invariance. is_single_peaked_on_tree compared with the decider (exhaustive m<=4, random m<=7/8), every returned edge list "
